@@ -3,6 +3,7 @@ from mirlib import *
 from proto import *
 import io_rules
 import cache_rules
+import blob_rules
 
 TECHNIQUE = "whole-crate dataflow rule 'no io::Result / e57::Result is dropped' (one named exception), raw read/write transfer discipline (loop + zero test + advance), success-implies-flushed exit rule, error-mapping decision tables of the Converter trait"
 EXPLANATION = (
@@ -23,6 +24,7 @@ def run(ctx):
     ctx.rule("R5", "an Err result that was inspected (?, match, is_err) never leads to a successful return of the inspecting function")
     ctx.rule("R4", "Converter::{read,write,invalid,internal}_err map Err(e)/None to the matching Error variant with source = Some(e)/None")
     ctx.rule("R6", "a failed device read leaves no stale page behind: every clobber of the page buffer is dominated by page_num = None and a page is published only on the checksum-equal edge, for the page that was sought (shared with C07-R2/R3)")
+    ctx.rule("R7", "Blob::write hands the payload to the page writer directly and checks every step (no unflushed intermediate buffer) (shared with C06-R1)")
     for cfg in ["lib", "lib_crc32c"]:
         prog, info = load_program(cfg, "e57")
         ctx.configs[cfg] = info
@@ -33,6 +35,7 @@ def run(ctx):
         ctx.call(io_rules.converter_tables, prog, "R4")
         ctx.call(io_rules.no_error_turned_into_success, prog, "R5")
         ctx.call(cache_rules.invalidate_on_clobber, prog, cache_rules.PR, rule="R6")
+        ctx.call(blob_rules.write_protocol, prog, "R7")
         ctx.call(cache_rules.validate_before_publish, prog, cache_rules.PR, "table" if cfg == "lib" else "crate", rule="R6")
     ctx.cfg = None
     ctx.call(io_rules.controls)
